@@ -105,16 +105,23 @@ def best_bottleneck_threshold(R, S, T):
     return 0
 
 
-def check_sequence(F, S, T, scheme, paths, fluxes):
+def check_sequence(F, S, T, scheme, paths, fluxes, exhausted=False):
     """Evaluate the per-path clauses on the residual matrices kept by this oracle.
     Returns None when all clauses hold (for some admissible choice among tied bottleneck edges),
     else a description of the first failing clause."""
     n = len(F)
     Sset, Tset = set(S), set(T)
 
+    def leftover(R):
+        opt = best_bottleneck(R, S, T)
+        if opt > 0:
+            return ('the search stopped without reaching num_paths or flux_cutoff although the residual '
+                    'matrix still has a source-to-sink path (bottleneck %r)' % (opt,))
+        return None
+
     def rec(i, R):
         if i == len(paths):
-            return None
+            return leftover(R) if exhausted else None
         p, f = paths[i], fluxes[i]
         if len(p) < 2:
             return 'path %d has fewer than two nodes: %s' % (i, p)
@@ -135,7 +142,7 @@ def check_sequence(F, S, T, scheme, paths, fluxes):
         if f != opt:
             return ('path %d: bottleneck %r is not the largest over all source-to-sink paths of the '
                     'residual matrix (%r)' % (i, f, opt))
-        if i + 1 == len(paths):
+        if i + 1 == len(paths) and not exhausted:
             return None
         if scheme == 'subtract':
             R2 = [row[:] for row in R]
@@ -485,7 +492,14 @@ def check_paths(ctx, case, mresp, second=None):
         if any(not isinstance(f, int) for f in fs):
             ctx.violation('paths returned a non-integral / infinite flux %r on an integer matrix' % (fs,), case)
             return
-        e = check_sequence(F, S, T, scheme, ps, fs)
+        # did the loop end for lack of paths (neither limit hit)?  then none may be left
+        tot_m = sum(sum(F[s]) for s in S)
+        hit_count = num_paths is not None and len(ps) >= num_paths
+        hit_cut = tot_m > 0 and Fraction(sum(fs), tot_m) >= Fraction(cutoff) - Fraction(1, 10 ** 9)
+        exhausted = not hit_count and not hit_cut and not (set(S) & set(T))
+        if exhausted:
+            ctx.tag('ran-out-of-paths')
+        e = check_sequence(F, S, T, scheme, ps, fs, exhausted=exhausted)
         if e:
             ctx.violation('paths(%s): %s' % (scheme, e), case)
             return
